@@ -194,9 +194,36 @@ extern "C" void proof_copy() {
 extern "C" void proof_access() {
   TL l; nd_obj(l);
   VASSUME(TL_wf(&l));
-  Long i = nd_u16(); VASSUME(i < CAP);
+  Long i = nd_u16(); VASSUME(i < CAP && !TL_vacant(&l, i));      // operator[] addresses stored tasks (call sites: plan iteration, updatePlan)
+  VREACH("access to a live slot");
   const TL& cl = l;
   VASSERT(C19, &l[i] == &l._items[i] && &cl[i] == &l._items[i], "operator[] addresses slot i");
+}
+
+// ---- C-linkage faces of the invariant / view for the spliced code contracts (contracts/tasklist.spec), and the dfcc entry points
+static_assert(__builtin_offsetof(TL, _count) == 3 * sizeof(Long) && sizeof(Long) == 2, "contracts/tasklist.spec addresses TaskListT::_count as field f3 of the lowered record");
+extern "C" {
+bool tl_wf(const TL* l) { return TL_wf(l); }
+bool tl_vacant(const TL* l, unsigned short i) { return TL_vacant(l, i); }
+unsigned tl_count(const TL* l) { return l->_count; }
+unsigned tl_capacity(void) { return CAP; }
+bool tl_item_is(const TL* l, unsigned short i, unsigned short o, unsigned short d, TransitionType t) { return i < CAP && l->_items[i].origin == o && l->_items[i].destination == d && l->_items[i].type == t; }
+void dfcc_tl_remove()  { TL l; l.remove(nd_u16()); VREACH("the contract's precondition is satisfiable: the call returns"); }
+void dfcc_tl_clear()   { TL l; l.clear(); VREACH("the contract's precondition is satisfiable: the call returns"); }
+#ifndef PAYLOAD_INT
+void dfcc_tl_emplace() { TL l; StateID o = nd_u16(); StateID d = nd_u16(); l.emplace(o, d, TransitionType::CHANGE); VREACH("the contract's precondition is satisfiable: the call returns"); }
+// a caller verified against the CONTRACTS of its callees (their bodies are not looked at): fill a pool, drain it, it is empty and well-formed
+void dfcc_tl_client() {
+  TL l;
+  StateID o = nd_u16(); StateID d = nd_u16();
+  const Long a = l.emplace(o, d, TransitionType::CHANGE);
+  __CPROVER_assert(a < CAP, "C19: client: insert into a new pool succeeds");
+  const unsigned n = l.count();
+  l.remove(a);
+  __CPROVER_assert(l.count() + 1 == n && tl_wf(&l), "C19: client: remove undoes the insert (by the callee contracts alone)");
+  VREACH("the callee contracts are consistent: the client reaches its end");
+}
+#endif
 }
 
 // ---- differential driver (translation validation): random operation sequence from a new pool
